@@ -422,6 +422,9 @@ class Evaluator:
     def __init__(self, mod, inline=True, branch_policy=None, call_policy=None, max_depth=6, import_policy=None,
                  sign_policy=None):
         self.mod = mod
+        self.events = []                  # ordered (kind, name, [arg values]) of module / import / linalg calls on the path
+        self.import_values = {}           # dotted imported name -> value (e.g. "xfab.CHECKS.activated": True)
+        self.import_values_at_definition = None   # the same at import time: default arguments are evaluated then
         self.threshold_policy = None      # (quantity, small positive threshold, node) -> True (inside the band) | False | None
         self.sign_policy = sign_policy    # (canonical difference, node) -> -1 | 0 | 1 | None  (may raise NeedSign)
         self.inline = inline              # True: every module-level function; or a set of names
@@ -463,7 +466,7 @@ class Evaluator:
                 j = i - (len(params) - nd)
                 if j < 0:
                     raise AnalysisError("E3: missing argument %s of %s" % (p, fn.name))
-                env[p] = self.eval(defaults[j], {})
+                env[p] = self.eval_default(defaults[j])
         for k in kwargs:
             if k not in params:
                 raise AnalysisError("E3: unknown keyword %s for %s" % (k, fn.name))
@@ -478,6 +481,17 @@ class Evaluator:
             self.depth -= 1
             self.current_fn = prev
         return None
+
+    def eval_default(self, expr):
+        """a default argument: evaluated once, when the `def` is executed (import time for module-level functions)"""
+        if self.import_values_at_definition is None:
+            return self.eval(expr, {})
+        cur = self.import_values
+        self.import_values = self.import_values_at_definition
+        try:
+            return self.eval(expr, {})
+        finally:
+            self.import_values = cur
 
     def run_body(self, fn, env):
         """execute a function body in a caller-supplied environment; returns
@@ -826,11 +840,17 @@ class Evaluator:
         if node.id in ("True", "False", "None"):
             return {"True": True, "False": False, "None": None}[node.id]
         if node.id in self.mod.imports:
+            if self.mod.imports[node.id] in self.import_values:
+                return self.import_values[self.mod.imports[node.id]]
             return ("import", self.mod.imports[node.id])
+        if node.id == "__debug__":
+            return True
         if node.id in getattr(self.mod, "assigns", {}):
             return self.module_constant(node.id)
+        if node.id in ("bool", "str", "float", "int") and getattr(self, "_type_context", False):
+            return ("type", node.id)
         if node.id in ("range", "len", "abs", "float", "int", "list", "tuple", "min", "max", "sum", "zip", "enumerate",
-                       "reversed", "sorted", "all", "any", "round"):
+                       "reversed", "sorted", "all", "any", "round", "isinstance", "str", "bool"):
             return ("builtin", node.id)
         raise AnalysisError("E3: unbound name %s (line %d)" % (node.id, node.lineno))
 
@@ -986,6 +1006,7 @@ class Evaluator:
             return v
         if isinstance(op, (ast.Is, ast.IsNot)):
             r = (a is b) if (a is None or b is None or isinstance(a, bool) or isinstance(b, bool)) else None
+            # (a number, string or array is never the object None / True / False: `1 is True` is False)
             if r is None:
                 raise AnalysisError("E3: `is` on non-singletons (line %d)" % node.lineno)
             return r if isinstance(op, ast.Is) else not r
@@ -1159,7 +1180,10 @@ class Evaluator:
                 return ("npfunc", node.attr)
             return ("npfunc", base[1].split(".", 1)[1] + "." + node.attr)
         if isinstance(base, tuple) and base and base[0] == "import":
-            return ("import", base[1] + "." + node.attr)
+            dotted = base[1] + "." + node.attr
+            if dotted in self.import_values:
+                return self.import_values[dotted]
+            return ("import", dotted)
         if isinstance(base, Obj):
             if node.attr not in base.attrs:
                 raise AnalysisError("E3: object %s has no attribute %s (line %d)" % (base.name, node.attr, node.lineno))
@@ -1201,6 +1225,7 @@ class Evaluator:
                     import re as _re
                     return _re.sub(args[0], args[1], args[2])
                 self.calls.append((name, [vkey(a) for a in args], node.lineno))
+                self.events.append(("import", name, list(args)))
                 if self.import_policy is not None:
                     r = self.import_policy(name, args, kwargs, node)
                     if r is not NotImplemented:
@@ -1218,6 +1243,7 @@ class Evaluator:
             # not an anchor of the pinned API: seen through, invisible to call policies and call logs
             return self._call_fn(self.mod.func(name), args, kwargs)
         self.calls.append((name, [vkey(a) for a in args], node.lineno))
+        self.events.append(("call", name, list(args)))
         if self.call_policy is not None:
             r = self.call_policy(name, args, kwargs, node)
             if r is not NotImplemented:
@@ -1236,6 +1262,22 @@ class Evaluator:
             if any(i is None for i in ints):
                 raise AnalysisError("E3: range over a non-constant (line %d)" % node.lineno)
             return [Rat.const(i) for i in range(*ints)]
+        if name == "isinstance" and len(args) == 2:
+            types = args[1] if isinstance(args[1], tuple) else (args[1],)
+            tn = [t[1] for t in types if isinstance(t, tuple) and len(t) == 2 and t[0] in ("builtin", "type")]
+            if len(tn) != len(types):
+                raise AnalysisError("E3: isinstance against a non-builtin type (line %d)" % node.lineno)
+            v = args[0]
+            kind = "bool" if isinstance(v, bool) else "str" if isinstance(v, str) else "NoneType" if v is None else \
+                "number" if isinstance(v, Rat) and v.is_const() else None
+            if kind is None:
+                raise AnalysisError("E3: isinstance of a symbolic value (line %d)" % node.lineno)
+            if kind == "number":
+                c = v.const_value()
+                kind = "int" if c.denominator == 1 and not getattr(v, "_is_float", False) else "float"
+            return kind in tn or (kind == "bool" and "int" in tn)
+        if name == "str" and len(args) == 1:
+            return args[0] if isinstance(args[0], str) else Opaque("str(%s)" % vkey(args[0]))
         if name == "len":
             v = args[0]
             if isinstance(v, (list, tuple)):
@@ -1503,6 +1545,8 @@ class Evaluator:
         return func_atom(fname, x)
 
     def np_call(self, name, args, kwargs, node):
+        if name.startswith("linalg.") or name in ("arccos", "arcsin", "sqrt", "log"):
+            self.events.append(("numpy", name, list(args)))      # operations that can fail or warn on invalid data
         r = self._np_call(name, args, kwargs, node)
         if name in ("linalg.inv", "linalg.qr", "linalg.det", "linalg.eig", "clip", "unique", "concatenate"):
             self.np_log.append((name, args, r))
